@@ -337,7 +337,7 @@ class Engine:
         if isinstance(f, (FuncVal, Wrapped)):
             qn = f.qualname
             c = self.contracts.get(qn)
-            if c is not None and (self.depth > 0 or qn != self.unit) and qn not in self.inline:
+            if c is not None and c.callee and (self.depth > 0 or qn != self.unit) and qn not in self.inline:
                 return c.apply(self, f, list(args), kwargs)
         if isinstance(f, Wrapped):
             return self.call_wrapped(f, args, kwargs)
@@ -650,7 +650,7 @@ class Engine:
             return None
         f = cm.func
         c = self.contracts.get(f.qualname)
-        if c is not None and f.qualname != self.unit and getattr(c, "as_context", None) is not None:
+        if c is not None and c.callee and f.qualname != self.unit and getattr(c, "as_context", None) is not None:
             c.as_context(self, f, cm.args, cm.kwargs, body_cb)
         else:
             self.call_func(f, cm.args, cm.kwargs, yield_cb=body_cb)
